@@ -181,6 +181,18 @@ func runCfg(rep *Report, rng *rand.Rand, n int, exhaustive bool) error {
 				rep.violation(Finding{Property: "C16", Clause: "names-a-field-that-does-not-offend", Input: reqs[i], Impl: impl[i], Model: ans[i]})
 			}
 		}
+		if k := strings.Index(ans[i], "offenders="); k >= 0 && strings.HasPrefix(impl[i], "err ?") {
+			// (not a ValidationError that errors.As finds: the text at least must name a field that offends)
+			named := false
+			for _, f := range strings.Split(strings.Fields(ans[i][k+len("offenders="):] + " -")[0], ",") {
+				if f != "" && strings.Contains(impl[i], f) {
+					named = true
+				}
+			}
+			if !named {
+				rep.violation(Finding{Property: "C16", Clause: "rejection-names-no-field", Input: reqs[i], Impl: impl[i], Model: ans[i]})
+			}
+		}
 		if impl[i] != "ok" && contacted[i] != 0 {
 			rep.violation(Finding{Property: "C16", Clause: "store-contacted-before-validation", Input: reqs[i], Impl: impl[i]})
 		}
